@@ -13,6 +13,8 @@ func (v *Value) UnmarshalNBT(tagType byte, r nbt.DecoderReader) error {
 	v.tag = tagType
 	var buf [8]byte
 	switch tagType {
+	default:
+		return fmt.Errorf("unknown Tag %#02x", tagType)
 	case nbt.TagEnd:
 	case nbt.TagByte:
 		n, err := r.ReadByte()
@@ -44,6 +46,9 @@ func (v *Value) UnmarshalNBT(tagType byte, r nbt.DecoderReader) error {
 		if err != nil {
 			return err
 		}
+		if n < 0 {
+			return errors.New("byte array len less than 0")
+		}
 
 		v.data = append(v.data[:0], make([]byte, 4+n)...)
 		binary.BigEndian.PutUint32(v.data, uint32(n))
@@ -57,6 +62,9 @@ func (v *Value) UnmarshalNBT(tagType byte, r nbt.DecoderReader) error {
 		n, err := readInt16(r)
 		if err != nil {
 			return err
+		}
+		if n < 0 {
+			return errors.New("string length less than 0")
 		}
 
 		v.data = append(v.data[:0], make([]byte, 2+n)...)
@@ -76,6 +84,12 @@ func (v *Value) UnmarshalNBT(tagType byte, r nbt.DecoderReader) error {
 		length, err := readInt32(r)
 		if err != nil {
 			return err
+		}
+		if length < 0 {
+			return errors.New("list length less than 0")
+		}
+		if t == nbt.TagEnd && length > 0 {
+			return errors.New("non-empty list of TAG_End")
 		}
 
 		v.elem = t
@@ -115,6 +129,9 @@ func (v *Value) UnmarshalNBT(tagType byte, r nbt.DecoderReader) error {
 		if err != nil {
 			return err
 		}
+		if n < 0 {
+			return errors.New("int array len less than 0")
+		}
 
 		v.data = append(v.data[:0], make([]byte, 4+n*4)...)
 		binary.BigEndian.PutUint32(v.data, uint32(n))
@@ -128,6 +145,9 @@ func (v *Value) UnmarshalNBT(tagType byte, r nbt.DecoderReader) error {
 		n, err := readInt32(r)
 		if err != nil {
 			return err
+		}
+		if n < 0 {
+			return errors.New("long array len less than 0")
 		}
 
 		v.data = append(v.data[:0], make([]byte, 4+n*8)...)
